@@ -508,6 +508,7 @@ func runC07(r *core.Run) {
 	r.Rule("(a) every sequence of L lines over a 28-text alphabet of line kinds, appended to a canonical prefix that drives the real scanner into each of its states (reachability confirmed through the scan hook), " +
 		"each also with an unterminated last line; every scan-hook transition compared online with the reference line automaton (DESIGN appendix A), every call boundary with the resume protocol; " +
 		"(b) generated streams T0 D1 T1 .. Dk Tk (goroutine dumps and race reports in junk) under the resume protocol: one snapshot per dump, equal to ground truth and to the dump scanned alone, withheld bytes = the dump's span. " +
+		"(c) the pp binary on generated multi-dump streams: stdout = the stream with each dump replaced by what pp prints for that dump alone. " +
 		"distinct: sequences are distinct by construction, streams by hash; non-trivial: sequence leaves state looking / stream has >= 1 dump")
 	r.Assume("reference automaton = DESIGN.md appendix A (cells marked either are not decided)", "line roles are fixed by the generator's construction, not by panicparse's regexps")
 	L := r.N(3, 4)
@@ -528,9 +529,31 @@ func runC07(r *core.Run) {
 		}
 	})
 	r.Count("streams", n)
+	// (c) the CLI drives the same resume protocol (internal/main.go): its output on a stream of several dumps is
+	// the stream with each dump replaced by its rendering - no position skipped or rendered twice, also when the
+	// line that ends the last dump is the unterminated last line of the input.
+	nc := r.N(80, 2500)
+	core.Parallel(nc, workers(), func(i int) {
+		rr := core.NewRand(r.Seed, 77, uint64(i))
+		cfg := &gen.StreamCfg{MaxDumps: 4, RaceChance: 3, NoFinalEOLChance: 2,
+			Junk:    gen.JunkCfg{Separators: i%3 == 0, Long: i%13 == 0},
+			DumpCfg: gen.Cfg{MaxG: 3, MaxFrames: 4, MaxDepth: 2}}
+		c := &cliStreamCase{Stream: gen.GenStream(rr, cfg), FileArg: i%4 == 3}
+		cliStreamEval(r, c)
+		r.Count("cli_streams", 1)
+	})
 }
 
 func replayC07(r *core.Run, kind string, raw json.RawMessage) {
+	if kind == "clistream" {
+		var c cliStreamCase
+		if err := json.Unmarshal(raw, &c); err != nil {
+			r.Broken(err.Error())
+			return
+		}
+		cliStreamEval(r, &c)
+		return
+	}
 	replaySeqOrStream(r, kind, raw, "all")
 }
 
